@@ -270,6 +270,14 @@ def run_R01_2(model, col, G):
         dicts = [n for n in ast.walk(h) if isinstance(n, ast.Dict) and len(n.keys) >= 2]
         om = dicts[:1]
     if not om:
+        # the table may live at module (or class) level: <NAME>[operation]
+        fi_ = model.file(REWRITE)
+        for n in ast.walk(h):
+            if isinstance(n, ast.Subscript) and isinstance(n.value, ast.Name) and isinstance(fi_.assigns.get(n.value.id), ast.Dict):
+                om = [fi_.assigns[n.value.id]]
+            elif isinstance(n, ast.Subscript) and isinstance(n.value, ast.Attribute) and isinstance(rv.class_attrs.get(n.value.attr), ast.Dict):
+                om = [rv.class_attrs[n.value.attr]]
+    if not om:
         raise AnchorMissing(f"{REWRITE}::v_AssignmentExpression: operator map not found")
     table = {k.member: v.member for k, v in model.fold(om[0]).items()}
     aop = {P.syms[0] for P in G.prods_named("assignment_op")}
@@ -565,7 +573,9 @@ def run_R01_5(model, col, vm):
                   f"{side[3:].lower()} operand is not (only) converted to operand type {idx}", CASTS, vb)
     cast = vm.arm("CAST")
     t = unparse(ast.Module(body=cast.body, type_ignores=[]))
-    col.check("float(" in t, "R01.5", f"{VM}::__Execute CAST arm float target", "a float target converts with float(...)",
+    import re as _re
+
+    col.check(bool(_re.search(r"(?<![\w.])float\b(?!Type)", t)), "R01.5", f"{VM}::__Execute CAST arm float target", "a float target converts with float(...)",
               "the CAST arm does not convert to float for a float target", VM, cast.case)
     ce = model.cls(LOWER, "LowerToIRVisitor").own_method("v_CastExpression")
     mk = [c for c in ast.walk(ce) if isinstance(c, ast.Call) and last_attr(c) == "CastInstruction"]
